@@ -56,5 +56,7 @@ clean:
 
 # first build of everything the quick checks need (also rebuilt on demand by each check)
 SETUP_BINS := $(shell cat setup_bins.txt 2>/dev/null)
-setup: $(addprefix build/,$(SETUP_BINS))
+setup:
+	@python3 tools/stamp.py
+	@$(MAKE) -s -j16 $(addprefix build/,$(SETUP_BINS))
 	@echo setup done
